@@ -237,7 +237,8 @@ func (g *qgen) valueFor(t graphql.Type, depth int) string {
 		sort.Strings(names)
 		var parts []string
 		for _, n := range names {
-			if g.chance(55) && depth > 0 {
+			_, required := x.InputFields[n].(*graphql.NonNull)
+			if required && !g.on["bad_args"] || g.chance(55) && depth > 0 {
 				parts = append(parts, n+": "+g.valueFor(x.InputFields[n], depth-1))
 			}
 		}
@@ -375,6 +376,9 @@ func (g *qgen) args(fd *fieldDesc) string {
 }
 
 func (g *qgen) selectionSet(typ string, depth int) string {
+	if depth < -1 || g.budget < -10 {
+		return "{ " + g.leaf(typ) + " }"
+	}
 	td := g.d.Types[typ]
 	n := 1 + g.r.Intn(4)
 	if g.h("empty_set", 25) {
@@ -410,7 +414,7 @@ func (g *qgen) selectionSet(typ string, depth int) string {
 		case roll < 45 && g.h("inline_no_type", 60):
 			g.feat("sel:inline_fragment_no_type_condition")
 			parts = append(parts, "..."+g.directives(50)+" "+g.selectionSet(typ, depth-1))
-		case roll < 50:
+		case roll < 50 && (!g.isRoot(typ) || g.on["bad_selection"]):
 			g.feat("sel:__typename")
 			parts = append(parts, g.aliasPrefix(usedNames, "__typename")+"__typename"+g.directives(15))
 		default:
@@ -438,7 +442,7 @@ func (g *qgen) selectionSet(typ string, depth int) string {
 			switch {
 			case sub != "" && (depth <= 0 || g.budget <= 0):
 				if !g.h("bad_selection", 30) {
-					s += " { __typename }"
+					s += " { " + g.leaf(sub) + " }"
 				} else {
 					g.feat("sel:object_without_selection")
 				}
@@ -454,9 +458,33 @@ func (g *qgen) selectionSet(typ string, depth int) string {
 		}
 	}
 	if len(parts) == 0 && !g.on["empty_set"] {
-		parts = append(parts, "__typename")
+		parts = append(parts, g.leaf(typ))
 	}
 	return "{ " + strings.Join(parts, g.pick(" ", "\n", ", ", " ")) + " }"
+}
+
+func (g *qgen) isRoot(typ string) bool { return typ == g.d.Query || typ == g.d.Mutation }
+
+// leaf is a selection that is valid on typ and needs nothing below it.
+// (`__typename` is not accepted by thunder's executor at the root: that is
+// property C14's finding, not this one's.)
+func (g *qgen) leaf(typ string) string {
+	if !g.isRoot(typ) {
+		return "__typename"
+	}
+	td := g.d.Types[typ]
+	for _, f := range td.Fields {
+		ok := f.Type == ""
+		for _, a := range f.Args {
+			if _, req := a.Type.(*graphql.NonNull); req {
+				ok = false
+			}
+		}
+		if ok && !strings.HasPrefix(f.Name, "fail") {
+			return f.Name
+		}
+	}
+	return "__typename"
 }
 
 // spreadable lists the fragments a selection set on typ may spread without
